@@ -3,7 +3,7 @@
 
 use crate::alloc;
 use crate::analysis::{analyze_output, GETS};
-use crate::case::{self, call_gen, Entropy, GenCase, Profile, RateMode, SizeMode};
+use crate::case::{self, call_gen_guarded as call_gen, Entropy, GenCase, Profile, RateMode, SizeMode};
 use crate::refpvm::optable as t;
 use crate::runner::{run_prop, Ctx, Fail, Outcome, Stats, Violation, THREADS};
 use crate::util;
@@ -237,8 +237,9 @@ pub fn expected_vocabulary(p: u8, ext: bool, buf: bool) -> Vec<u8> {
 
 pub fn run_c12(ctx: &Ctx) -> Outcome {
     let mut out = Outcome::new(
-        "Existential: for each protocol P, default settings, seeds VERIF_SEED*1000003 .. +N-1 (N = 25 000 quick / 250 000 thorough), plus one batch \
-         per protocol with both opt-in flags on (N/5 seeds). Oracle: the union of decoded opcode sets must contain every opcode of the \
+        "Existential: for each protocol P, default settings, seeds VERIF_SEED*1000003 .. +N-1 (N = 25 000 quick / 250 000 thorough; 4N for \
+         protocols 4 and 5 whose rarest opcode NEWOBJ_EX occurs in ~0.03 % of outputs), plus one batch per protocol with both opt-in flags on \
+         (N/5 seeds) that must witness the opt-in opcodes. Oracle: the union of decoded opcode sets must contain every opcode of the \
          independent table with proto <= P (EXT*/buffer only in the opt-in batch; PROTO for P>=2; FRAME for P>=4) and for P>=4 both framed and \
          unframed outputs must occur. Non-trivial = output contains one of the ten rarest opcodes of its batch; witness seeds are recorded.",
     );
@@ -246,7 +247,10 @@ pub fn run_c12(ctx: &Ctx) -> Outcome {
     let base = ctx.seed.wrapping_mul(1_000_003);
     let mut witnesses: BTreeMap<String, serde_json::Value> = BTreeMap::new();
     for p in 0u8..=5 {
-        for (ext, cnt) in [(false, n), (true, n / 5)] {
+        // NEWOBJ_EX occurs in only ~0.03 % of protocol 4/5 outputs: four times as many seeds there keep
+        // the expected number of witnesses of the rarest opcode >= 24 (chance miss < e^-24)
+        let n_default = if p >= 4 { 4 * n } else { n };
+        for (ext, cnt) in [(false, n_default), (true, n / 5)] {
             // per-thread histograms: opcode -> (count of outputs containing it, first witness seed)
             let per = cnt.div_ceil(THREADS as u64);
             let results: Vec<(Vec<u64>, Vec<Option<u64>>, u64, u64, u64)> = std::thread::scope(|sc| {
@@ -307,7 +311,16 @@ pub fn run_c12(ctx: &Ctx) -> Outcome {
             }
             out.stats.evaluations += cnt;
             out.stats.add("outputs skipped (generation failed or undecodable; C09/C04 decide)", bad);
-            let vocab = expected_vocabulary(p, ext, ext);
+            // the opt-in batch is 5x smaller: it only has to witness the opt-in opcodes themselves
+            // (a rare opcode such as NEWOBJ_EX, ~0.05 % of outputs, is the default batch's job)
+            let vocab: Vec<u8> = if ext {
+                expected_vocabulary(p, true, true).into_iter().filter(|c| [t::EXT1, t::EXT2, t::EXT4, t::NEXT_BUFFER, t::READONLY_BUFFER].contains(c)).collect()
+            } else {
+                expected_vocabulary(p, false, false)
+            };
+            if vocab.is_empty() {
+                continue;
+            }
             let batch = format!("P{}{}", p, if ext { "+ext+buffer" } else { "" });
             let mut rare: Vec<(u64, u8)> = vocab.iter().map(|c| (occ[*c as usize], *c)).collect();
             rare.sort();
@@ -351,7 +364,7 @@ pub fn run_c12(ctx: &Ctx) -> Outcome {
         }
     }
     out.extra.insert("witnesses".into(), json!(witnesses));
-    out.assumptions = vec!["a miss is reported as a violation because the rarest opcode has >= 25 expected witnesses at the quick batch size (probability of a chance miss < e^-25)".into()];
+    out.assumptions = vec!["a miss is reported as a violation because the rarest opcode (NEWOBJ_EX in protocol 5, ~6 per 25 000 default outputs) has >= 24 expected witnesses at the quick batch size (probability of a chance miss < e^-24)".into()];
     out
 }
 
